@@ -179,6 +179,39 @@ func checkC33(p *Prog, r *Report) {
 		}
 	}
 	// (3)
+	// inside the validation, the visibility / test_only check is on every successful path (no early return for subrepo
+	// or cross-compiled targets)
+	if val != nil && cdv != nil {
+		skip := false
+		for _, rc := range returnCases(val, 0) {
+			if !isNilConst(rc.Vals[0]) {
+				continue
+			}
+			if existsPath(val, nil, rc.Ret, func(j ssa.Instruction) bool { return callsFn(j, cdv) }) {
+				skip = true
+			}
+		}
+		r.check(!skip, "E5.check-unavoidable", "validateBuildTargetBeforeBuild cannot succeed without CheckDependencyVisibility", p.pos(val.Pos()), fnName(val), "every nil return lies behind the call", "validateBuildTargetBeforeBuild returns nil on a path that never calls CheckDependencyVisibility (e.g. an early return for targets in a subrepo, which includes every cross-compiled target): neither visibility nor test_only is enforced for them")
+	}
+	// a visibility list that arrives frozen (a constant from a subincluded or preloaded file) is still a visibility list
+	if pt := p.Fn("parse/asp", "populateTarget"); pt != nil {
+		bare := false
+		eachInstr(pt, false, func(_ *ssa.Function, i ssa.Instruction) {
+			ta, ok := i.(*ssa.TypeAssert)
+			if !ok || !strings.HasSuffix(typeString(ta.AssertedType), "asp.pyList") {
+				return
+			}
+			// asserted value: an element of the args vector
+			if u, ok := ta.X.(*ssa.UnOp); ok {
+				if ia, ok := u.X.(*ssa.IndexAddr); ok {
+					if _, isPrm := ia.X.(*ssa.Parameter); isPrm {
+						bare = true
+					}
+				}
+			}
+		})
+		r.check(!bare, "E9.visibility-list-may-be-frozen", "populateTarget unwraps list arguments with asList", p.pos(pt.Pos()), fnName(pt), "no bare .(pyList) assertion on an element of the argument vector", "populateTarget asserts an argument to pyList directly: a list that arrives frozen (visibility = COMMON_VISIBILITY from a subincluded file, or package(default_visibility=...)) is not a pyList, so the attribute is silently ignored - a visibility list is dropped, the target becomes private, and dependents that match its declared pattern are refused")
+	}
 	// whether a label is experimental is a function of the label (and the configured directories): only labels of the
 	// top-level repository are, and that is read off the label's own Subrepo, not off whichever state asks
 	if isExp != nil && len(isExp.Params) > 0 {
@@ -483,6 +516,33 @@ func checkC36(p *Prog, r *Report) {
 			r.check(bad == 0, "E5.activation-filtered", "members of :all are queued only when ShouldInclude accepts them", p.pos(site), fnName(at), itoa(n)+" queueing site(s), each under state.ShouldInclude(target)", "ActivateTarget queues a member of `:all` on a path where state.ShouldInclude was false or not asked (e.g. for coverage runs): --include / --exclude and the implicit `manual` exclusion are ignored and every target of the package is built")
 		}
 	}
+	// an --exclude argument is a target pattern exactly when it looks like a build label; everything else (including
+	// namespaced labels such as manual:linux_amd64) stays a label exclude
+	{
+		n, bad := 0, 0
+		var site token.Pos
+		eachInstr(sie, false, func(_ *ssa.Function, i ssa.Instruction) {
+			st, ok := i.(*ssa.Store)
+			if !ok || fieldKey(st.Addr) != "core.BuildState.ExcludeTargets" {
+				return
+			}
+			n++
+			under := blockJustified(st.Block(), func(f Fact) bool {
+				c, ok := f.V.(*ssa.Call)
+				return ok && f.Val && strings.HasSuffix(calleeName(&c.Call), "LooksLikeABuildLabel")
+			}, 6)
+			if !under {
+				bad++
+				site = st.Pos()
+			}
+		})
+		if n == 0 {
+			r.unresolved("E5.exclude-classification", "stores to BuildState.ExcludeTargets in SetIncludeAndExclude")
+		} else {
+			r.check(bad == 0, "E5.exclude-classification", "an exclude becomes a target pattern only under LooksLikeABuildLabel", p.pos(site), fnName(sie), itoa(n)+" append(s) to ExcludeTargets, each under LooksLikeABuildLabel(e)", "SetIncludeAndExclude files an exclude under ExcludeTargets although it does not look like a build label (e.g. any argument containing a colon that happens to parse as a relative label): the implicit `manual:<arch>` exclude and label excludes such as speed:slow stop excluding by label, and the labelled targets are selected")
+		}
+	}
+	importRules(p, r, checkC22, "plz/", "E5.walk-prunes")
 	rule = "E5.no-exclude-dropped"
 	{
 		var exP *ssa.Parameter
